@@ -33,8 +33,9 @@ func init() {
 	})
 }
 
-func c14AcceptSite(c *Ctx) {
-	rule := "C14/accept-site"
+func c14AcceptSite(c *Ctx) { c14AcceptSiteAs(c, "C14/accept-site") }
+
+func c14AcceptSiteAs(c *Ctx, rule string) {
 	authF := c.FieldVar("shared/auth", "NtlmResponse", "Authenticated")
 	userF := c.FieldVar("shared/auth", "NtlmResponse", "Username")
 	fn := c.Fn("cmd/auth/ntlm", "ntlmContext.authenticate")
@@ -251,10 +252,19 @@ func c14ContextScopeAs(c *Ctx, rule string) {
 		}
 		return sessField(rv(strip(arg(call, 0))))
 	}
+	respT := c.NamedType("shared/auth", "NtlmResponse")
 	respField := func(name string) func(ssa.Value) bool {
 		return func(v ssa.Value) bool {
-			_, f, ok := fieldLoad(strip(v))
-			return ok && f.Name() == name && f.Pkg().Path() == modPath+"/shared/auth"
+			b, f, ok := fieldLoad(strip(v))
+			if !ok || f.Name() != name || f.Pkg().Path() != modPath+"/shared/auth" {
+				return false
+			}
+			// a field of the response being built (not the request's field of the same name)
+			bt := rv(b).Type()
+			if pt, isPtr := bt.Underlying().(*types.Pointer); isPtr {
+				bt = pt.Elem()
+			}
+			return types.Identical(bt, respT)
 		}
 	}
 	errV := ssa.Value(inner)
